@@ -18,12 +18,12 @@ import (
 // C05 — generic batch issuance keeps order and count and isolates failures.
 type c05 struct{ base }
 
-func init() { core.Register(c05{base{"C05", "exploration", 400, 6000}}) }
+func init() { core.Register(c05{base{"C05", "exploration", 4000, 60000}}) }
 
 func (c05) Describe() core.Description {
 	return core.Description{
 		Technique: "deterministic simulation of generic batch issuance over the simulated byte network with per-slot failure injection (unknown key id, unsupported type, malformed blinded element corrupted on the wire) under varied issuer configurations; oracle = per-request standalone evaluation as executable reference model, per-slot finalization and token verification",
-		Rule: "one case = one batch (sequence of slots over {type 1, type 2} x {known key, unknown truncated key id, token type the batch issuer has no issuer for, malformed blinded element}) under one issuer configuration ({type 1 only, type 2 only, both, two keys per type}); quick enumerates all compositions of length 1-2 and samples up to 8, thorough enumerates all compositions of length <= 3 and samples up to 16; " +
+		Rule: "one case = one batch (sequence of slots over {type 1, type 2} x {known key, unknown truncated key id, token type the batch issuer has no issuer for, malformed blinded element}) under one issuer configuration ({type 1 only, type 2 only, both, two keys per type}); quick enumerates all compositions of length <= 3 (258 per configuration) and samples up to 8, thorough enumerates all compositions of length <= 4 (1554 per configuration) and samples up to 16; " +
 			"non-trivial = the batch contains at least one failing slot next to at least one other slot; distinct = distinct (configuration, composition) pairs",
 		Real:        []string{"batched.BatchedClient", "BatchedTokenRequest codec", "BasicBatchedIssuer.EvaluateBatch", "UnmarshalBatchedTokenResponses", "type1/type2 clients and issuers"},
 		Stub:        []string{"batched.Issuer adapters around the real type-1/type-2 issuers", "network (malformed elements are produced by byte faults on the wire)", "entropy", "arena"},
@@ -44,9 +44,9 @@ func (c c05) Generate(seed uint64, tier string, idx int) *core.Plan {
 	kinds := []int64{10, 11, 12, 20, 21, 22}
 	var slots []int64
 	e := idx / 4
-	maxEnum := 2
+	maxEnum := 3
 	if tier == "thorough" {
-		maxEnum = 3
+		maxEnum = 4
 	}
 	// enumerate all compositions of length 1..maxEnum first (6 + 36 (+ 216)), then sample
 	total := 0
